@@ -2,7 +2,7 @@
    model (goyacc driver over gen/GenTables.v + transcribed actions + lexer model).  Each lemma is one vm-checked
    equality  map (parse_model . fst) cases = map snd cases  (Leibniz equality of ASTs, no boolean comparison). *)
 From Coq Require Import List NArith ZArith Bool String.
-From Verif Require Import common.Sexp sem.JV sem.Syntax c09.FullAst c09.ParseActions c09.ParseFull c09.FullCases c09.FinLemmas.
+From Verif Require Import common.Sexp sem.JV sem.Syntax c09.FullAst c09.ParseActions c09.ParseFull c09.FullCases c09.FinLemmas c09.WfAst.
 Import ListNotations.
 
 Definition agree (cases : list (list N * option query)) : Prop :=
@@ -38,3 +38,11 @@ Lemma family_sizes :
    List.length reduce_cases, List.length if_cases, List.length try_cases, List.length label_cases)
   = (2688, 96, 49, 73, 97, 48, 72, 48)%nat.
 Proof. vm_compute. reflexivity. Qed.
+
+(* the expected ASTs of all the families lie in the syntactically described image of the parser *)
+Definition expected_wf (cases : list (list N * option query)) : bool :=
+  forallb (fun c => match snd c with Some q => wfq_in true q | None => true end) cases.
+Lemma families_wf :
+  expected_wf (unary_cases_terms ++ unary_cases_ops ++ as_cases ++ def_cases ++ reduce_cases ++ if_cases ++ try_cases
+               ++ label_cases) = true.
+Proof. vm_cast_no_check (eq_refl true). Qed.
